@@ -112,6 +112,16 @@ def check_belt(h):
         h.probe("belt_stall_with_followers")
     if any(x[0] == "grant" and x[4] == "p" and not x[5] for x in h.hist):
         h.probe("belt_entry_waited_for_spacing")
+    if not acc and h.kind == "cconv":
+        # C12 spacing in units of BELT TRAVEL: a stopped non-accumulating belt does not move the previous item away from the
+        # entry, so the time it stood still does not count (slotted belts excluded: they never stop, finding KF05)
+        for x, y in zip(recs, recs[1:]):
+            moved = (y.put_t - x.put_t) - overlap(S, x.put_t, y.put_t)
+            if y.put_t - x.put_t >= slot - EPS and moved < slot - 1e-7 * max(1, slot):
+                h.violate("C12", "spacing", f"{y.name} entered at {y.put_t}, {y.put_t - x.put_t} after {x.name}, but the belt stood still for "
+                          f"{overlap(S, x.put_t, y.put_t)} of that time: only {moved} of travel (one item length of travel = {slot})", feat=lab,
+                          extra=",belt-stopped-in-between")
+                break
     if not acc:
         aseq = {x[3]: i for i, x in enumerate(h.hist) if x[0] == "avail"}       # position in the history = exact order
         gseq = {x[3]: i for i, x in enumerate(h.hist) if x[0] == "grant"}
@@ -122,15 +132,16 @@ def check_belt(h):
                 a, b = q.avail_t, (q.got_t if q.got_t is not None else now)
                 if not b > a:
                     continue
-                inside = a + EPS < r.put_t < b - EPS
+                # "admitted" = the instant the entry reservation was granted (a producer may hold a granted reservation and put later)
+                tok = next((x[4] for x in h.hist if x[0] == "put" and x[3] == r.name), None)
+                adm_t = h.toks[tok].granted_at if tok in h.toks and h.toks[tok].granted_at is not None else r.put_t
+                inside = a + EPS < adm_t < b - EPS
                 # in the very instant the head reached the exit: only if the space reservation was *granted* in a later
                 # kernel event than the one in which the head became ready (the order of same-instant events is exact)
-                tok = next((x[4] for x in h.hist if x[0] == "put" and x[3] == r.name), None)
-                at_start_after = (abs(r.put_t - a) <= EPS and tok in gseq and q.name in aseq and gseq[tok] > aseq[q.name]
-                                  and h.toks[tok].granted_at == r.put_t)
+                at_start_after = (abs(adm_t - a) <= EPS and tok in gseq and q.name in aseq and gseq[tok] > aseq[q.name])
                 if inside or at_start_after:
-                    moving = sum(1 for z in recs if z.put_t < r.put_t and (z.avail_t is None or z.avail_t > r.put_t))
-                    h.violate("C13", "nonacc-admission", f"{r.name} was admitted at {r.put_t} while the head item {q.name} was waiting at the exit during [{a}, {b})", feat=lab,
+                    moving = sum(1 for z in recs if z.put_t < adm_t and (z.avail_t is None or z.avail_t > adm_t))
+                    h.violate("C13", "nonacc-admission", f"{r.name} was admitted (entry reservation granted) at {adm_t} while the head item {q.name} was waiting at the exit during [{a}, {b})", feat=lab,
                               extra=f",moving-items={'0' if moving == 0 else '>0'},{'inside-stall' if inside else 'granted-in-stall-start-instant-after-head-arrived'}")
                     break
         for r in recs:
